@@ -270,8 +270,9 @@ class Dict:
         self,
         table: typing.Sequence[tuple[StrictValue, int, Value]],
     ):
-        self.table = tuple(table)
-        self.mapping = {k: v for _, k, v in table}
+        # a later equal key replaces the earlier entry
+        self.table = tuple({k: (orig, k, v) for orig, k, v in table}.values())
+        self.mapping = {k: v for _, k, v in self.table}
         self._key = None
         self._format = None
 
